@@ -51,8 +51,16 @@ def generate(h):
             else:
                 h.errors.append("C06: guard byte %r not understood" % it)
     t += "(* src/CppUTest/MemoryLeakDetector.cpp: static const char GuardBytes[] *)\nDefinition c06_guard_bytes : list N := %s.\n" % h.coq_bytes(gb)
-    p = h.find("src/CppUTest/MemoryLeakDetector.cpp", r"PlatformSpecificMemset\(\s*memory\s*,\s*(0[xX][0-9a-fA-F]+|\d+)\s*,\s*node->size_\s*\)",
-               "poison byte of invalidateMemory", conv=lambda s: int(s, 0))
+    # the poison byte: the one byte literal in invalidateMemory (loose: a memset, a loop or a helper may carry it)
+    ib = _body(det, r"void\s+MemoryLeakDetector::invalidateMemory\s*\(\s*char\s*\*\s*\w+\s*\)\s*\{")
+    lits = re.findall(r"\b0[xX][0-9a-fA-F]+\b", re.sub(r"/\*.*?\*/|//[^\n]*", " ", ib or "", flags=re.S))
+    p = None
+    if ib is None or len(set(x.lower() for x in lits)) != 1:
+        h.errors.append("C06: invalidateMemory: poison byte literal not found (literals: %r)" % lits)
+    else:
+        p = int(lits[0], 16)
+    if ib is not None and "node->size_" not in _norm(ib) and "size_" not in _norm(ib):
+        h.errors.append("C06: invalidateMemory no longer fills the size of the record")
     t += "(* MemoryLeakDetector::invalidateMemory: PlatformSpecificMemset(memory, <poison>, node->size_) *)\nDefinition c06_poison : N := %d%%N.\n" % ((p or 0) & 255)
     # the guard loops: same index expression on the writing and on the checking side
     # (kept loose on purpose: only the index expression and the bound are pinned, so that a rewrite of the loop is not an alarm)
